@@ -43,6 +43,22 @@ def handle : Handler := fun input impl =>
     let ammo := if c.kind ∈ ["uri", "uripost", "raw", "httpjson"] then "value" else "distinct"
     let mobs := s!"guns=distinct ammo={ammo} served=yes shared={listDash (expectedShared c)} mutated={listDash (expectedMutated c)}"
     (mobs, (extraConc okv).getD (judgeAlias tbl o))
+  | "handover" =>
+    match getN? okv "shots", getN? okv "reports", lookup okv "words" with
+    | some sh, some rp, some ws =>
+      let shots := (getN? kv "shots").getD 1
+      let steps := (getN? kv "steps").getD 1
+      let failat := (getN? kv "failat").getD steps
+      let per := reportsPerShot (getS kv "kind") (getS kv "fail" "none") steps failat
+      let words := (dashList ws).map fun t => match t.splitOn ":" with
+        | [w, n] => (w, n.toNat!)
+        | _ => (t, 0)
+      let v := judgeHandover { shots := sh, reports := rp, words := words }
+      -- a sample reported twice also changes the count: the Spec verdict names the cause, the prediction is not
+      -- compared in that case
+      let mobs := if v == "ok" then s!"shots={shots} reports={shots * per} words=TWG:{shots * per}" else "-"
+      (mobs, if v != "ok" then v else (extraConc okv).getD "ok")
+    | _, _, _ => ("-", (extraConc okv).getD s!"fail:crash:unparsable observation {impl.take 120}")
   | "guns" =>
     match getN? kv "n", getN? okv "created", getN? okv "distinct", getN? okv "maxoverlap", getN? okv "maxgoroutines" with
     | some n, some cr, some di, some mo, some mg =>
@@ -53,7 +69,8 @@ def handle : Handler := fun input impl =>
     | _, _, _, _, _ => ("-", (extraConc okv).getD s!"fail:crash:unparsable observation {impl.take 120}")
   | "race" =>
     let o : ConcObs := { fatal := getS okv "fatal" "-", detector := getS okv "detector", races := getS okv "races" "-" }
-    (s!"run=- served=yes samples=yes fatal=- detector={o.detector} races=-", judgeConc tbl [] o)
+    let served := if servedExpected (getS kv "fail" "none") ((getN? kv "failat").getD 0) then "yes" else "no"
+    (s!"run=- served={served} samples=yes fatal=- detector={o.detector} races=-", judgeConc tbl [] o)
   | "hammer" =>
     let o : ConcObs := { fatal := getS okv "fatal" "-", detector := getS okv "detector", races := getS okv "races" "-" }
     let calls := (getN? kv "n").getD 0 * (getN? kv "calls").getD 0
